@@ -155,7 +155,14 @@ type result struct {
 
 // exchange runs one complete exchange with persistence inserted at the points in mask
 // (bit1 owner after Parameter, bit2 owner after SetParameter, bit4 device after Parameter).
-func exchange(suite kex.Suite, c kex.CipherSuiteID, ra, rb io.Reader, mask int) (res result) {
+func exchange(suite kex.Suite, c kex.CipherSuiteID, ra, rb io.Reader, mask int, inTransit ...func(which string, x []byte) []byte) (res result) {
+	xf := func(which string, x []byte) []byte {
+		x = bytes.Clone(x)
+		for _, f := range inTransit {
+			x = f(which, x)
+		}
+		return x
+	}
 	key := rsaFor(suite)
 	var pub *rsa.PublicKey
 	if key != nil {
@@ -192,10 +199,10 @@ func exchange(suite kex.Suite, c kex.CipherSuiteID, ra, rb io.Reader, mask int) 
 		}
 	}
 	maybe(1, &owner)
-	dev := suite.New(bytes.Clone(res.xA), c)
+	dev := suite.New(xf("A", res.xA), c)
 	step("device.Parameter", func() (err error) { res.xB, err = dev.Parameter(rb, pub); res.xB = bytes.Clone(res.xB); return })
 	maybe(4, &dev)
-	step("owner.SetParameter", func() error { return owner.SetParameter(bytes.Clone(res.xB), key) })
+	step("owner.SetParameter", func() error { return owner.SetParameter(xf("B", res.xB), key) })
 	maybe(2, &owner)
 	if res.err == nil {
 		res.ownerSEK, res.ownerSVK = bytes.Clone(field(owner, "SEK")), bytes.Clone(field(owner, "SVK"))
@@ -497,6 +504,35 @@ func invalidParams(suite kex.Suite, c kex.CipherSuiteID) {
 	}
 }
 
+// minimalCoords rewrites an ECDH parameter (len|x|len|y|len|r) with x and y stripped of leading zero octets.
+func minimalCoords(_ string, x []byte) []byte {
+	var fields [][]byte
+	rest := x
+	for i := 0; i < 3; i++ {
+		if len(rest) < 2 {
+			return x
+		}
+		n := int(binary.BigEndian.Uint16(rest))
+		if len(rest) < 2+n {
+			return x
+		}
+		fields = append(fields, rest[2:2+n])
+		rest = rest[2+n:]
+	}
+	if len(rest) != 0 {
+		return x
+	}
+	var o []byte
+	for i, f := range fields {
+		if i < 2 {
+			f = bytes.TrimLeft(f, "\x00")
+		}
+		o = binary.BigEndian.AppendUint16(o, uint16(len(f)))
+		o = append(o, f...)
+	}
+	return o
+}
+
 // leadingZeroWitnesses runs checked exchanges over a family of randomness streams and counts those whose public
 // values (ECDH X or Y coordinate, DH public value) carry leading zero bytes, on the owner and on the device side.
 func leadingZeroWitnessesPart(suite kex.Suite, tries, part int) {
@@ -518,7 +554,7 @@ func leadingZeroWitnesses(suite kex.Suite, c kex.CipherSuiteID, tries, base int)
 			return len(x) < want // big.Int.Bytes() strips leading zero bytes
 		}
 	}
-	var nA, nB int64
+	var nA, nB, nMin int64
 	for i := 0; i < tries; i++ {
 		ka, kb := fmt.Sprintf("lcg:%d", base+2*i), fmt.Sprintf("lcg:%d", base+2*i+1)
 		r.Evaluations.Add(1)
@@ -526,6 +562,26 @@ func leadingZeroWitnesses(suite kex.Suite, c kex.CipherSuiteID, tries, base int)
 		if res.err != nil {
 			r.Violation("exchange-fails:"+string(suite)+":witness-search", fmt.Sprintf("%s/%s rand=%s/%s: %v", suite, c, ka, kb, res.err), rep(suite, c, 2, ka, kb))
 			continue
+		}
+		if suite == kex.ECDH256Suite || suite == kex.ECDH384Suite {
+			// one more exchange in which every coordinate travels as a minimal-length integer (each field carries its
+			// own length, so a peer may write a coordinate with leading zero octets shorter): whenever that changes the
+			// bytes in transit, both parties must still accept, agree and match the reference derivation
+			r.Evaluations.Add(1)
+			res2 := exchange(suite, c, mkStream(ka, 1), mkStream(kb, 2), 0b00010, minimalCoords)
+			if res2.err != nil || lead(res2.xA) || lead(res2.xB) {
+				nMin++
+				switch {
+				case res2.err != nil:
+					r.Violation("minimal-length-coordinate-refused:"+string(suite), fmt.Sprintf("%s/%s rand=%s/%s: a parameter whose coordinate with leading zero octets travels at its minimal length: %v", suite, c, ka, kb, res2.err), rep(suite, c, 2, ka, kb))
+				case !bytes.Equal(res2.ownerSEK, res2.devSEK) || !bytes.Equal(res2.ownerSVK, res2.devSVK) || len(res2.ownerSEK) == 0:
+					r.Violation("minimal-length-coordinate-disagree:"+string(suite), fmt.Sprintf("%s/%s rand=%s/%s: parties disagree when a coordinate travels at its minimal length", suite, c, ka, kb), rep(suite, c, 2, ka, kb))
+				default:
+					if ref, err := referenceKeys(suite, c, res2, len(res2.ownerSVK)); err == nil && !bytes.Equal(ref, append(bytes.Clone(res2.ownerSEK), res2.ownerSVK...)) {
+						r.Violation("minimal-length-coordinate-kdf:"+string(suite), fmt.Sprintf("%s/%s rand=%s/%s: keys differ from the reference derivation when a coordinate travels at its minimal length", suite, c, ka, kb), rep(suite, c, 2, ka, kb))
+					}
+				}
+			}
 		}
 		if la, lb := lead(res.xA), lead(res.xB); la || lb {
 			if la {
@@ -539,6 +595,7 @@ func leadingZeroWitnesses(suite kex.Suite, c kex.CipherSuiteID, tries, base int)
 			r.Violation("disagree:"+string(suite)+":witness-search", fmt.Sprintf("%s/%s rand=%s/%s: parties disagree", suite, c, ka, kb), rep(suite, c, 2, ka, kb))
 		}
 	}
+	r.Add("minimal_length_coordinate_exchanges_"+string(suite), nMin)
 	r.Add("leading_zero_witnesses_owner_"+string(suite), nA)
 	r.Add("leading_zero_witnesses_device_"+string(suite), nB)
 }
@@ -575,7 +632,7 @@ func kdfSweep() {
 func main() {
 	r = ev.Start("C14", "exploration")
 	streams := []string{"counter", "lowone", "ff", "lcg"}
-	r.Rule("full product of 6 key-exchange suites x 7 cipher suites; for each: every pair of 4 deterministic randomness streams (incl. leading-zero-heavy and all-ones) with no persistence, every non-empty subset of the 3 persistence points between protocol steps (owner after Parameter, owner after SetParameter, device after Parameter; serialise with MarshalBinary, restore with Suite.New(nil,1)+UnmarshalBinary as the stores do) for two stream pairs (all 7 subsets for one cipher per suite in quick, for all ciphers in thorough); oracles: SEK/SVK sizes, both parties equal, equal to an independent SP800-108 KDF over an independently recomputed shared secret (stdlib ecdh / big.Int / OAEP), tunnel works in both directions, different randomness gives different keys; every invalid-parameter class per suite presented to owner and device must be rejected without panic and without a key; KDF compared with the reference for both hashes, 8 key lengths, 4 context lengths and every output length 8..2048 bits step 8. distinct = distinct (suite,cipher,derived key) outcomes + invalid classes.")
+	r.Rule("full product of 6 key-exchange suites x 7 cipher suites; for each: every pair of 4 deterministic randomness streams (incl. leading-zero-heavy and all-ones) with no persistence, every non-empty subset of the 3 persistence points between protocol steps (owner after Parameter, owner after SetParameter, device after Parameter; serialise with MarshalBinary, restore with Suite.New(nil,1)+UnmarshalBinary as the stores do) for two stream pairs (all 7 subsets for one cipher per suite in quick, for all ciphers in thorough); oracles: SEK/SVK sizes, both parties equal, equal to an independent SP800-108 KDF over an independently recomputed shared secret (stdlib ecdh / big.Int / OAEP), tunnel works in both directions, different randomness gives different keys; for every ECDH exchange found with a leading-zero coordinate the same exchange with minimal-length coordinates in transit gives the same keys; every invalid-parameter class per suite presented to owner and device must be rejected without panic and without a key; KDF compared with the reference for both hashes, 8 key lengths, 4 context lengths and every output length 8..2048 bits step 8. distinct = distinct (suite,cipher,derived key) outcomes + invalid classes.")
 	var wg sync.WaitGroup
 	sem := make(chan struct{}, 16)
 	for _, s := range suites {
